@@ -21,6 +21,7 @@ import (
 	"time"
 
 	"github.com/klev-dev/klevdb"
+	"github.com/klev-dev/klevdb/pkg/verifhook"
 )
 
 // long values are written as a digest (length + FNV-1a 64): the free-running histories are judged by equality
@@ -101,7 +102,18 @@ func genFree(w *bufio.Writer, root string, seed uint64, n, ops int) {
 			fmt.Fprintf(w, "fr.open => %s\n", errRes(err))
 			continue
 		}
-		fmt.Fprintf(w, "fr.open roll=%d as=%d keep=%d straddle=%d => ok\n", roll, b2i(as), b2i(keep), b2i(straddle))
+		// "split" histories: every record reaches the log file in two halves some microseconds apart (verif hook):
+		// what a concurrent reader of the file may see of a write in progress, made wide enough to hit
+		split := int64(0)
+		if r.intn(3) == 0 {
+			split = r.pick([]int64{20_000, 100_000, 400_000})
+		}
+		verifhook.SplitWrites.Store(split)
+		// in half of the histories the publishers leave the time to Publish (monotone with offset by construction: the
+		// final Check is then held against the log in full); in the others they bring their own, which racing
+		// publishers can get out of order
+		nowTimes := r.intn(2) == 0
+		fmt.Fprintf(w, "fr.open roll=%d as=%d keep=%d straddle=%d split=%d now=%d => ok\n", roll, b2i(as), b2i(keep), b2i(straddle), split, b2i(nowTimes))
 		rec := &frRec{}
 		var known atomic.Int64 // a NextOffset some publisher has been told (for picking offsets only)
 		var tclock atomic.Int64
@@ -137,6 +149,10 @@ func genFree(w *bufio.Writer, root string, seed uint64, n, ops int) {
 							vl = 4200 + r.intn(3000)
 						}
 						msgs[j] = klevdb.Message{Key: []byte(fmt.Sprintf("k%d", r.intn(6))), Value: randBytes(r, vl), Time: time.UnixMicro(tclock.Add(1)).UTC()}
+						if nowTimes {
+							// Publish stamps the message itself, under the writer lock: times never decrease with offset
+							msgs[j].Time = time.Time{}
+						}
 					}
 					var next int64
 					var perr error
@@ -373,6 +389,7 @@ func genFree(w *bufio.Writer, root string, seed uint64, n, ops int) {
 			final = fmt.Sprintf("ok %d %s", nx, frMsgs(all))
 		}
 		fmt.Fprintf(w, "fr.end => %s\n", final)
+		verifhook.SplitWrites.Store(0)
 		cerr := l.Close()
 		// the files everybody left behind pass Check and reopen to the same content
 		chk := "ok"
